@@ -90,20 +90,24 @@ def atomP (m : Mode) (a : Atom) : List Piece :=
   | none => atomPieces a
   | some nameEq => if a.name = "" then [] else [.tok .opaque (printFn nameEq a)]
 
+/-- does the printed element have any text? (`if str(x)` of asp_conjunction.py: a concatenation is empty iff every part is) -/
+def hasText (ps : List Piece) : Bool := ps.any fun p => p.text != ""
+
 /-- `', '.join([str(x) for x in conjunction if str(x)])` -/
 def conjP (items : List (List Piece)) : List Piece :=
-  joinP [kw ",", sp1] (items.filter fun ps => text ps != "")
+  joinP [kw ",", sp1] (items.filter hasText)
 
-/-- operands joined by ` sym `; an operand that is itself an operation is parenthesised -/
-def plainOp (sym : String) (args : List Elem) (ps : List (List Piece)) : List Piece :=
-  joinP [sp1, kw sym, sp1] ((args.zip ps).map fun (e, p) => if e.isOp then paren p else p)
+/-- a printed operand that starts with `__` / `_` gets `>> ` / `<< ` instead (`temporal_formula_string`; the fixed symbols and
+keywords never start with an underscore, so only names and values are concerned) -/
+def markTok (k : K) (s : String) (rest : List Piece) : List Piece :=
+  if s.startsWith "__" then kw ">>" :: sp1 :: .tok k (s.drop 2).toString :: rest
+  else if s.startsWith "_" then kw "<<" :: sp1 :: .tok k (s.drop 1).toString :: rest
+  else .tok k s :: rest
 
-/-- a printed operand that starts with `__` / `_` gets `>> ` / `<< ` instead (first piece only) -/
 def mark : List Piece → List Piece
-  | .tok k s :: rest =>
-    if s.startsWith "__" then kw ">>" :: sp1 :: .tok k (s.drop 2).toString :: rest
-    else if s.startsWith "_" then kw "<<" :: sp1 :: .tok k (s.drop 1).toString :: rest
-    else .tok k s :: rest
+  | .tok .pred s :: rest => markTok .pred s rest
+  | .tok .term s :: rest => markTok .term s rest
+  | .tok .opaque s :: rest => markTok .opaque s rest
   | ps => ps
 
 mutual
@@ -111,14 +115,14 @@ mutual
   def pieces (m : Mode) : Elem → List Piece
     | .atom a => atomP m a
     | .val s => [.tok .term s]
-    | .op .plain sym args => plainOp sym args (piecesL m args)
+    | .op .plain sym args => joinP [sp1, kw sym, sp1] (operandsL m args)
     | .op .angle sym args =>
-      if isArithSym sym then plainOp sym args (piecesL m args)
-      else joinP [sp1, kw sym, sp1] ((piecesL m args).map fun p => paren p ++ [kw "/", .tok .term "360"])
+      if isArithSym sym then joinP [sp1, kw sym, sp1] (operandsL m args)
+      else joinP [sp1, kw sym, sp1] (angleL m args)
     | .op .temporal sym args =>
-      match args, piecesL m args with
-      | [e], [p] => [kw sym, sp1] ++ (if e.isOp && e.arity != 1 then paren p else p)
-      | args, ps => plainOp sym args ps
+      match args with
+      | [e] => [kw sym, sp1] ++ (if e.isOp && e.arity != 1 then paren (pieces m e) else pieces m e)
+      | args => joinP [sp1, kw sym, sp1] (operandsL m args)
     | .agg sym disc body =>
       [kw ("#" ++ sym), kw "{"] ++ joinP [kw ","] (piecesL m disc) ++ [kw ":", sp1] ++ conjP (piecesL m body) ++ [kw "}"]
     | .tel neg ops =>
@@ -126,12 +130,24 @@ mutual
   def piecesL (m : Mode) : List Elem → List (List Piece)
     | [] => []
     | e :: es => pieces m e :: piecesL m es
+  /-- operands of an operation: an operand that is itself an operation is parenthesised -/
+  def operandsL (m : Mode) : List Elem → List (List Piece)
+    | [] => []
+    | e :: es => (if e.isOp then paren (pieces m e) else pieces m e) :: operandsL m es
+  /-- operands of a comparison between angles: `(operand)/360` -/
+  def angleL (m : Mode) : List Elem → List (List Piece)
+    | [] => []
+    | e :: es => (paren (pieces m e) ++ [kw "/", .tok .term "360"]) :: angleL m es
+  /-- operands of the outermost temporal operation: marks rewritten, operations parenthesised -/
+  def markedL (m : Mode) : List Elem → List (List Piece)
+    | [] => []
+    | e :: es => (if e.isOp then paren (mark (pieces m e)) else mark (pieces m e)) :: markedL m es
   /-- `formula.temporal_formula_string()` of the outermost operations of a temporal formula -/
   def telTop (m : Mode) : Elem → List Piece
     | .op _ sym args =>
-      match args, piecesL m args with
-      | [e], [p] => [kw sym, sp1] ++ (if e.isOp then paren (mark p) else mark p)
-      | args, ps => joinP [sp1, kw sym, sp1] ((args.zip ps).map fun (e, p) => if e.isOp then paren (mark p) else mark p)
+      match args with
+      | [e] => [kw sym, sp1] ++ (if e.isOp then paren (mark (pieces m e)) else mark (pieces m e))
+      | args => joinP [sp1, kw sym, sp1] (markedL m args)
     | e => pieces m e
   def telL (m : Mode) : List Elem → List (List Piece)
     | [] => []
@@ -154,7 +170,7 @@ structure Rule where
 
 def headP (m : Mode) (h : Head) : List Piece :=
   let c := conjP (piecesL m h.cond)
-  pieces m h.elem ++ (if text c != "" then [kw ":", sp1] ++ c else [])
+  pieces m h.elem ++ (if hasText c then [kw ":", sp1] ++ c else [])
 
 def isSp : Piece → Bool
   | .sp _ => true
@@ -163,17 +179,24 @@ def isSp : Piece → Bool
 /-- `str.strip()` at piece level (white space only ever occurs as `sp` pieces) -/
 def stripP (ps : List Piece) : List Piece := ((ps.dropWhile isSp).reverse.dropWhile isSp).reverse
 
-/-- the printed body; in a rule with a head a positive `&tel{…}` element becomes `not not &tel{…}` and loses the blank
-after the preceding comma (split / replace surgery of asp_rule.py) -/
+/-- one printed body element; in a rule with a head a positive `&tel{…}` element becomes `not not &tel{…}` -/
+def wrapItem (hasHead : Bool) (x : Elem × List Piece) : List Piece :=
+  (if hasHead && x.1.isPosTel then [kw "not", sp1, kw "not", sp1] else []) ++ x.2
+
+/-- the body elements after the first: `, item`, but a wrapped `&tel` element loses the blank after the comma (split / replace
+surgery of asp_rule.py) -/
+def bodyRest (hasHead : Bool) : List (Elem × List Piece) → List Piece
+  | [] => []
+  | x :: rest => (if hasHead && x.1.isPosTel then [kw ","] else [kw ",", sp1]) ++ wrapItem hasHead x ++ bodyRest hasHead rest
+
+def bodyItems (m : Mode) (body : List Elem) : List (Elem × List Piece) :=
+  (body.zip (piecesL m body)).filter fun x => hasText x.2
+
+/-- the printed body -/
 def bodyP (m : Mode) (hasHead : Bool) (body : List Elem) : List Piece :=
-  let items := (body.zip (piecesL m body)).filter fun (_, p) => text p != ""
-  let rec go : List (Elem × List Piece) → Bool → List Piece
-    | [], _ => []
-    | (e, p) :: rest, first =>
-      let wrap := hasHead && e.isPosTel
-      (if first then [] else if wrap then [kw ","] else [kw ",", sp1]) ++
-      (if wrap then [kw "not", sp1, kw "not", sp1] else []) ++ p ++ go rest false
-  go items true
+  match bodyItems m body with
+  | [] => []
+  | x :: rest => wrapItem hasHead x ++ bodyRest hasHead rest
 
 def dedupText : List (List Piece) → List String → List (List Piece)
   | [], _ => []
